@@ -50,20 +50,39 @@ try_compute = TryCompute()
 
 class Awaiting:
     awaiting_stack = []
+    # Values found to depend on something that is being computed right now
+    # (see remember_cycle below), and, for each value being computed, those it
+    # has found to be so
+    known_cycles = {}
+    found_cycles_stack = []
 
     def __init__(self, deferred):
         self.deferred = deferred
 
     def __enter__(self):
-        if self.deferred.is_awaiting:
+        if self.deferred.is_awaiting or id(self.deferred) in Awaiting.known_cycles:
             raise DeferredCycle()
         self.deferred.is_awaiting = True
         Awaiting.awaiting_stack.append(self.deferred)
+        Awaiting.found_cycles_stack.append([])
         return self
 
     def __exit__(self, exc_type, exc_value, exc_tb):
         assert Awaiting.awaiting_stack.pop() is self.deferred
         self.deferred.is_awaiting = False
+        for key in Awaiting.found_cycles_stack.pop():
+            Awaiting.known_cycles.pop(key, None)
+
+
+def remember_cycle(deferred):
+    # Computing 'deferred' ran into a value that is being computed right now.
+    # For as long as the value computed at the moment stays so, trying again
+    # can only end the same way: whatever 'deferred' ran into is either still
+    # being computed or a cycle of its own. (Without this, a cycle through a
+    # chain of products was tried 2**n times before it was reported.)
+    if Awaiting.found_cycles_stack and isinstance(deferred, BaseDeferred) and id(deferred) not in Awaiting.known_cycles:
+        Awaiting.known_cycles[id(deferred)] = deferred
+        Awaiting.found_cycles_stack[-1].append(id(deferred))
 
 
 def not_ready():
@@ -429,6 +448,7 @@ def symbolic_product(lhs, rhs):
         try:
             value = wait(number)
         except DeferredCycle:
+            remember_cycle(number)
             continue
         if not isinstance(symbolic, LinearPolynomial):
             symbolic = LinearPolynomial[int]({symbolic: 1})
